@@ -118,7 +118,8 @@ fn gen_metal(src: &mut Src, horiz: bool, pp: i64, allow_asym_flip: bool) -> MMet
     let flip = src.prob(1, 3);
     let rails = src.bool();
     let rail_w = even(src, 8, 40);
-    let nsig = src.usize_in(1, 4);
+    // a layer may carry nothing but rails (a power-strap layer): no signal track at all
+    let nsig = if rails && src.prob(1, 8) { 0 } else { src.usize_in(1, 4) };
     // signals and gaps
     let mut body: Vec<(TT, i64)> = vec![];
     for _ in 0..nsig {
@@ -300,6 +301,15 @@ fn gen_cell(src: &mut Src, st: &MStack, name: &str, lower: &[MCellT], max_size: 
         let cl = cands[src.index(cands.len())];
         let (nt, nc) = (ntracks(st, l, size), ntracks(st, cl, size));
         if nt == 0 || nc == 0 {
+            // a request naming track 0 of a layer without signal tracks cannot be realised: in the
+            // unrealisable-requests sub-check it is made all the same (it must not crash the compiler)
+            if LOOSE_CUTS.with(|c| c.get()) && src.prob(1, 2) {
+                if is_assign {
+                    cell.assigns.push((nets[0].to_string(), (l, 0, cl, 0)));
+                } else {
+                    cell.cuts.push((l, 0, cl, 0));
+                }
+            }
             continue;
         }
         let (t, c) = (src.index(nt), src.index(nc));
@@ -642,6 +652,14 @@ fn oracle(m: &MLibT, ctx: &mut Ctx) -> Result<(), String> {
     };
     let BuiltT { lib, stack, .. } = b;
     let res = tet::conv::raw::RawExporter::convert(lib, stack);
+    // a cut or assignment naming a track of a layer that has no signal track cannot be realised
+    let trackless = m.cells.iter().any(|c| c.cuts.iter().map(|x| *x).chain(c.assigns.iter().map(|a| a.1)).any(|(l, _, cl, _)| m.stack.metals[l].nsig() == 0 || m.stack.metals[cl].nsig() == 0));
+    if trackless {
+        // Such a request names no track inside the outline; the property does not say what becomes of it
+        // (the compiler drops it, or reports an error): only a crash is excluded here.
+        ctx.label(&format!("request on a layer without signal tracks: {}", if res.is_ok() { "compiled" } else { "refused" }));
+        return Ok(());
+    }
     let rawlib = match res {
         Err(e) => {
             if bad_size {
@@ -677,6 +695,9 @@ fn oracle(m: &MLibT, ctx: &mut Ctx) -> Result<(), String> {
     }
     if m.stack.metals.iter().any(|x| x.overlap > 0) {
         ctx.label("stack with overlapping rails");
+    }
+    if m.cells.iter().any(|c| m.stack.metals[..c.metals.min(m.stack.metals.len())].iter().any(|x| x.nsig() == 0)) {
+        ctx.label("cell reaching a layer that has rails only");
     }
     if m.stack.metals.iter().any(|x| x.offset != 0) {
         ctx.label("stack with an offset");
@@ -738,10 +759,96 @@ fn literal_libs() -> Vec<(&'static str, MLibT)> {
 }
 fn literal_case(src: &mut Src, ctx: &mut Ctx) -> Result<(), String> {
     let libs = literal_libs();
-    let i = src.u64() as usize % libs.len();
+    let i = src.u64() as usize % (libs.len() + 1);
+    if i == libs.len() {
+        return literal_port_on_rails_only_layer(ctx);
+    }
     ctx.label(&format!("literal: {}", libs[i].0));
     ctx.nontrivial(hash_of(&libs[i].1));
     oracle(&libs[i].1, ctx).map_err(|e| format!("[{}] {}", libs[i].0, e))
+}
+/// fixed 29dd2eb: an abstract edge port naming track 0 of a layer that has rails only crashed the compiler
+/// (division by zero in Layer::span); an error (or shapes) is required
+fn literal_port_on_rails_only_layer(ctx: &mut Ctx) -> Result<(), String> {
+    use TT::*;
+    let m = MLibT {
+        stack: MStack { prim: (120, 120), metals: vec![MMetal { horiz: true, entries: vec![(Gnd, 8), (Gap, 104), (Pwr, 8)], repeat: None, offset: 0, overlap: 0, flip: false, cutsize: 2, m: 1 }], vias: vec![] },
+        cells: vec![MCellT { name: "leaf0".into(), size: (1, 1), metals: 1, cuts: vec![], assigns: vec![], insts: vec![] }],
+    };
+    ctx.label("literal: abstract edge port on a layer without signal tracks (fixed: 29dd2eb)");
+    ctx.nontrivial(hash_of(&m));
+    let BuiltT { lib, stack, .. } = build(&m)?;
+    {
+        let mut c = lib.cells[0].write().map_err(|_| "lock")?;
+        let outline = c.layout.as_ref().ok_or("layout")?.outline.clone();
+        let mut a = tet::abs::Abstract::new("leaf0", 1, outline);
+        a.ports.push(tet::abs::Port { name: "p0".into(), kind: tet::abs::PortKind::Edge { layer: 0, track: 0, side: tet::abs::Side::BottomOrLeft } });
+        c.abs = Some(a);
+    }
+    // an error or a library: anything but a crash
+    let _ = tet::conv::raw::RawExporter::convert(lib, stack);
+    Ok(())
+}
+/// Leaf cells that also carry an abstract view with edge ports: compiling must report an error or succeed
+/// (a port may name a track of a layer that has no signal track at all); on success every port is one
+/// rectangle on its metal layer.
+fn ports_case(src: &mut Src, ctx: &mut Ctx) -> Result<(), String> {
+    let m = gen_tlib(src, false);
+    let b = build(&m)?;
+    let metal_keys = b.metal_keys.clone();
+    let BuiltT { lib, stack, .. } = b;
+    let mut nports = 0;
+    let mut on_rails_only = false;
+    for cp in lib.cells.iter() {
+        let mut c = cp.write().map_err(|_| "lock")?;
+        let mc = m.cells.iter().find(|x| x.name == c.name).ok_or("model cell")?;
+        if !c.name.starts_with("leaf") || c.layout.is_none() {
+            continue;
+        }
+        let l = c.layout.as_ref().unwrap();
+        let mut a = tet::abs::Abstract::new(c.name.clone(), l.metals, l.outline.clone());
+        for k in 0..l.metals {
+            if src.prob(1, 3) {
+                continue;
+            }
+            let nt = ntracks(&m.stack, k, mc.size);
+            let track = if nt == 0 { 0 } else { src.index(nt) };
+            on_rails_only |= m.stack.metals[k].nsig() == 0;
+            let side = if src.bool() { tet::abs::Side::BottomOrLeft } else { tet::abs::Side::TopOrRight };
+            a.ports.push(tet::abs::Port { name: format!("p{}", k), kind: tet::abs::PortKind::Edge { layer: k, track, side } });
+            nports += 1;
+        }
+        c.abs = Some(a);
+    }
+    if nports > 0 {
+        ctx.label("abstract with edge ports");
+        ctx.nontrivial(hash_of(&(&m, nports)));
+    }
+    if on_rails_only {
+        ctx.label("edge port on a layer without signal tracks");
+    }
+    let rawlib = match tet::conv::raw::RawExporter::convert(lib, stack) {
+        Err(_) => {
+            ctx.refused("compile refused");
+            return Ok(());
+        }
+        Ok(l) => l,
+    };
+    let rl = rawlib.read().map_err(|_| "lock")?;
+    for cp in rl.cells.iter() {
+        let c = cp.read().map_err(|_| "lock")?;
+        if let Some(a) = &c.abs {
+            for p in &a.ports {
+                let n: usize = p.shapes.values().map(|v| v.len()).sum();
+                let on_metal = p.shapes.keys().all(|k| metal_keys.contains(k));
+                let rects = p.shapes.values().flatten().all(|s| matches!(s, raw::Shape::Rect(_)));
+                if n != 1 || !on_metal || !rects {
+                    return Err(format!("cell {}: port {} compiled to {:?}, expected one rectangle on its metal layer", c.name, p.net, p.shapes));
+                }
+            }
+        }
+    }
+    Ok(())
 }
 fn asym_case(src: &mut Src, ctx: &mut Ctx) -> Result<(), String> {
     let m = gen_tlib(src, true);
@@ -751,22 +858,25 @@ fn asym_case(src: &mut Src, ctx: &mut Ctx) -> Result<(), String> {
     oracle(&m, ctx)
 }
 fn run(run: &mut Run) {
-    run.rule("Stack family: 1-4 metal layers alternating direction (either first), entry patterns of optional ground/power rails, 1-4 signals and gaps with even widths, written flat or with Repeat groups, offset in {0, -rail/2, small}, overlap in {0, rail width}, with and without every-other-period flipping (palindromic and, in a second sub-check, asymmetric width patterns; tracks numbered in the order their period lists them), layer pitch 1-3 primitive pitches; vias between adjacent metals. Cells: rectangular outlines that are whole periods of every used layer (1 in 12 deliberately not: error required), cuts and assignments at in-range crossings kept clear of each other and of instances with one net per track, leaf-cell instances in all four reflections aligned to whole periods. Oracle (R-tracks): per layer and track, wire pieces + requested cuts + true instance extents tile [0, span]; one via per assignment centred on the crossing; nets on exactly the covering pieces; rails VDD/VSS. Non-trivial = a cut and an assignment and >= 2 metal layers; distinct by hash.");
-    run.assume("non-rectangular outlines, odd widths/cut/via sizes, instances not aligned to whole periods, abstract ports are not generated");
+    run.rule("Stack family: 1-4 metal layers alternating direction (either first), entry patterns of optional ground/power rails, 1-4 signals (none at all on one railed layer in eight) and gaps with even widths, written flat or with Repeat groups, offset in {0, -rail/2, small}, overlap in {0, rail width}, with and without every-other-period flipping (palindromic and, in a second sub-check, asymmetric width patterns; tracks numbered in the order their period lists them), layer pitch 1-3 primitive pitches; vias between adjacent metals. Cells: rectangular outlines that are whole periods of every used layer (1 in 12 deliberately not: error required), cuts and assignments at in-range crossings kept clear of each other and of instances with one net per track, leaf-cell instances in all four reflections aligned to whole periods. Oracle (R-tracks): per layer and track, wire pieces + requested cuts + true instance extents tile [0, span]; one via per assignment centred on the crossing; nets on exactly the covering pieces; rails VDD/VSS. Non-trivial = a cut and an assignment and >= 2 metal layers; distinct by hash.");
+    run.assume("non-rectangular outlines, odd widths/cut/via sizes, instances not aligned to whole periods are not generated; abstract edge ports only in the compile-edge-ports sub-check (outcome: error or one rectangle per port)");
     run.min_nontrivial = 100;
-    let n = literal_libs().len() as u32;
+    let n = literal_libs().len() as u32 + 1;
     run.literals("literals", &(0..n).map(|i| vec![0, i]).collect::<Vec<_>>(), &literal_case);
     run.explore("compile", run.tier.pick(300_000, 4_000_000), 700, &main_case);
     // flipped layers with asymmetric patterns: tracks are numbered in the order their period lists them
     run.explore("compile-asymmetric-flip", run.tier.pick(120_000, 1_500_000), 700, &asym_case);
     // cut requests over the outline edge or over each other: refused or realised, never ignored
     run.explore("compile-unrealisable-cuts", run.tier.pick(120_000, 1_500_000), 700, &loose_case);
+    // abstract views with edge ports (also on layers that have rails only): an error or shapes, never a crash
+    run.explore("compile-edge-ports", run.tier.pick(60_000, 600_000), 700, &ports_case);
 }
 fn case(sub: &str) -> Option<Box<CaseFn<'static>>> {
     match sub {
         "compile" => Some(Box::new(main_case)),
         "compile-asymmetric-flip" => Some(Box::new(asym_case)),
         "compile-unrealisable-cuts" => Some(Box::new(loose_case)),
+        "compile-edge-ports" => Some(Box::new(ports_case)),
         "literals" => Some(Box::new(literal_case)),
         _ => None,
     }
